@@ -747,7 +747,7 @@ def gen_case(rng, profile="model", params=None, opts=None):
     if m2:
         weights.update({"rcast": 4 if U else 0, "r2i": 3, "i2r": 3, "assume_nref": 3, "nonnull": 2, "forget": 2, "project": 1,
                         "isderef": 2 if params[3] == "1" else 0, "q_deref": 4 if params[3] == "1" else 0,
-                        "init": 2, "havoc": 3, "meet": 2, "narrow": 1})
+                        "init": 2, "havoc": 3, "meet": 0 if U else 2, "narrow": 0 if U else 1})
     if not (full or m2) and params[3] == "1":
         # the offset / size ghost variables of is_dereferenceable are not modelled: leave out the
         # modelled operations that can observe them (meet, narrowing; reference equalities above)
@@ -963,6 +963,25 @@ CORPUS_FULL = [
 ]
 
 
+# minimal histories of the findings in the code of unknown regions (fixes/regions-7..9): model stream of
+# Dom/RegionCore2.v and search streams
+CORPUS2 = [
+    # regions-7: the first store into an unknown region must not read ghost variables of an earlier life
+    "rg 00010 1 2 1 3 1 0 1 ; init 0 U0 ; init 0 R0 ; mk 0 p0 U0 1 c:4 ; st 0 p0 U0 null ; st 0 p0 U0 null ; havoc 0 U0 ; init 0 U0 ; mk 0 p0 U0 1 c:4 ; mk 0 p1 R0 2 c:4 ; st 0 p0 U0 v:p1 ; ld 0 p2 p0 U0",
+    "rg 00010 1 2 1 3 1 0 2 ; init 0 U0 ; init 0 U1 ; init 0 R0 ; mk 0 p0 U0 1 c:4 ; st 0 p0 U0 null ; st 0 p0 U0 null ; rcopy 0 U0 U1 ; mk 0 p0 U0 1 c:4 ; mk 0 p1 R0 2 c:4 ; st 0 p0 U0 v:p1 ; ld 0 p2 p0 U0",
+    "rg 00000 2 2 1 3 1 0 1 ; init 0 U0 ; copy 1 0 ; mk 0 p0 U0 1 c:4 ; st 0 p0 U0 c:5 ; st 0 p0 U0 c:5 ; st 1 p1 U0 c:5 ; st 1 p1 U0 c:5 ; join 0 0 1 ; init 0 U0 ; mk 0 p0 U0 1 c:4 ; st 0 p0 U0 c:7 ; ld 0 i0 p0 U0",
+    "rg 00010 1 2 1 3 1 0 1 ; init 0 U0 ; init 0 R0 ; mk 0 p0 U0 1 c:4 ; st 0 p0 U0 c:5 ; assign 0 i0 E 0 7 ; i2r 0 i0 R0 p1 ; st 0 p0 U0 v:p1 ; havoc 0 U0 ; init 0 U0 ; mk 0 p0 U0 1 c:4 ; st 0 p0 U0 c:9 ; ld 0 i1 p0 U0",
+    # regions-8: a store that is not written to the base domain still counts for allocation sites and tags
+    "rg 10100 2 2 1 4 1 0 1 ; init 0 U0 ; init 0 R0 ; mk 0 p0 U0 1 c:4 ; copy 1 0 ; st 0 p0 U0 c:1 ; mk 1 p1 R0 2 c:4 ; st 1 p0 U0 v:p1 ; join 0 0 1 ; mk 0 p2 R0 3 c:4 ; st 0 p0 U0 v:p2 ; ld 0 p3 p0 U0",
+    # regions-9: the reinterpreting store must not leave the region "uninitialised"
+    "rg 00000 1 2 1 4 1 0 1 ; init 0 U0 ; init 0 R0 ; mk 0 p0 U0 1 c:4 ; mk 0 p1 U0 2 c:4 ; st 0 p0 U0 c:5 ; st 0 p0 U0 null ; mk 0 p2 R0 3 c:4 ; nonnull 0 p2 ; st 0 p1 U0 v:p2 ; ld 0 p3 p0 U0",
+    # offsets and sizes
+    "rg 00010 1 2 1 3 1 1 1 ; init 0 U0 ; init 0 R0 ; init 0 Q0 ; mk 0 p0 U0 1 c:16 ; gep 0 p1 U0 p0 U0 E 0 4 ; q_deref 0 p1 c:4 ; q_deref 0 p1 c:13 ; st 0 p0 U0 v:p1 ; st 0 p0 U0 v:p1 ; ld 0 p2 p0 U0 ; mk 0 p0 Q0 2 v:i0 ; st 0 p0 Q0 v:p1 ; isderef 0 b0 Q0 p0 v:i1",
+]
+# known finding (not repaired): the meet of two values that give an unknown region incompatible dynamic types
+KNOWN_MEET = "rg 00000 3 2 1 2 1 0 1 ; init 0 U0 ; mk 0 p0 U0 1 c:4 ; copy 1 0 ; st 0 p0 U0 null ; st 0 p0 U0 null ; st 0 p0 U0 c:9 ; st 1 p0 U0 c:9 ; st 1 p0 U0 c:9 ; meet 2 0 1"
+
+
 def scenarios(rng, full):
     """boundary part: short scripted prefixes placed on the case splits of the code (singleton /
     non-singleton regions, uninitialised regions, null references, allocation sites, copies,
@@ -1018,15 +1037,15 @@ def scenarios(rng, full):
 def gen(seed, tier, profile="model", n=None, params=None, opts=None):
     rng = random.Random(seed * 1000003 + (17 if profile == "model" else 91))
     n = n if n is not None else (700 if tier == "quick" else 20000)
-    out = list(CORPUS) if profile == "model" else []
+    out = list(CORPUS) if profile == "model" else (list(CORPUS) + list(CORPUS2) if profile == "model2" else [])
     # boundary part: scripted prefixes on the case splits, under every parameter setting
     reps = 1 if tier == "quick" else 12
     for _ in range(reps):
-        scs = scenarios(rng, profile == "full")
+        scs = scenarios(rng, profile in ("full", "model2"))
         for j, (shape, nU, prefix) in enumerate(scs):
             pss = PARAMS if tier != "quick" else rng.sample(PARAMS, 6) + ["11101", "11111"]
             for ps in pss:
-                if profile != "full" and ps[3] == "1" and any(o.startswith("assume_ref") and " b eq " in o for o in prefix):
+                if profile not in ("full", "model2") and ps[3] == "1" and any(o.startswith("assume_ref") and " b eq " in o for o in prefix):
                     continue
                 out.append(gen_case(rng, profile, ps, dict(opts or {}, shape=shape, nU=nU, prefix=prefix,
                                                            minops=0, maxops=rng.choice([0, 2, 6]))))
